@@ -55,8 +55,10 @@ class Header:
         self._parse(text)
 
     def _parse(self, text):
-        for m in re.finditer(r"static\s+const\s+double\s+(\w+)\s*\[\s*(\d+)\s*\]\s*=\s*\{(.*?)\}\s*;", text, flags=re.S):
-            name, size, body = m.group(1), int(m.group(2)), m.group(3)
+        self.table_types = {}
+        for m in re.finditer(r"(?:static\s+)?(?:const\s+)?((?:long\s+)?double|float)\s+(?:const\s+)?(\w+)\s*\[\s*(\d+)\s*\]\s*=\s*\{(.*?)\}\s*;", text, flags=re.S):
+            ctype, name, size, body = " ".join(m.group(1).split()), m.group(2), int(m.group(3)), m.group(4)
+            self.table_types[name] = ctype
             vals = []
             for item in body.split(","):
                 item = item.strip()
